@@ -512,6 +512,7 @@ func parseErrorGuards(pc *ssa.Call, blk *ssa.BasicBlock) bool {
 	if errv == nil {
 		return false
 	}
+	var merged, direct []*ssa.BasicBlock
 	for _, x := range pc.Parent().Blocks {
 		m := len(x.Instrs)
 		if m == 0 {
@@ -522,19 +523,77 @@ func parseErrorGuards(pc *ssa.Call, blk *ssa.BasicBlock) bool {
 			continue
 		}
 		bo, ok := ifi.Cond.(*ssa.BinOp)
-		if !ok || !((bo.X == errv && isNilConst(bo.Y)) || (bo.Y == errv && isNilConst(bo.X))) {
+		if !ok || !((carriesErr(bo.X, errv, 0) && isNilConst(bo.Y)) || (carriesErr(bo.Y, errv, 0) && isNilConst(bo.X))) {
 			continue
 		}
-		nonNil := x.Succs[0]
+		if bo.X != errv && bo.Y != errv {
+			// a merged error: err = parse error, or a further complaint raised only when the
+			// parse succeeded
+			merged = append(merged, x)
+		} else {
+			direct = append(direct, x)
+		}
+	}
+	nonNilSucc := func(x *ssa.BasicBlock) *ssa.BasicBlock {
+		bo := x.Instrs[len(x.Instrs)-1].(*ssa.If).Cond.(*ssa.BinOp)
 		if bo.Op == token.EQL {
-			nonNil = x.Succs[1]
+			return x.Succs[1]
 		}
-		if reachableFrom(nonNil, nil)[blk] {
-			return false
+		return x.Succs[0]
+	}
+	// paths on which the parse error is non-nil cannot take the nil side of a later test of a
+	// merged error that carries it
+	pruned := func(from *ssa.BasicBlock, i int) bool {
+		for _, mb := range merged {
+			if mb == from {
+				return from.Succs[i] != nonNilSucc(from)
+			}
 		}
-		return true
+		return false
+	}
+	if len(direct) > 0 {
+		return !reachablePruned(nonNilSucc(direct[0]), pruned)[blk]
+	}
+	for _, x := range merged {
+		if !reachableFrom(nonNilSucc(x), nil)[blk] {
+			return true
+		}
 	}
 	return false
+}
+
+// carriesErr: v is errv, or a φ each of whose inputs is errv or a value assigned where errv was
+// already known to be nil (err = parse error; if err == nil && trailing data { err = ... }).
+func carriesErr(v, errv ssa.Value, depth int) bool {
+	if v == errv {
+		return true
+	}
+	phi, ok := v.(*ssa.Phi)
+	if !ok || depth > 3 {
+		return false
+	}
+	has := false
+	for i, e := range phi.Edges {
+		if carriesErr(e, errv, depth+1) {
+			has = true
+			continue
+		}
+		// assigned under errv == nil?
+		under := false
+		for _, de := range dominatingEdges(phi.Block().Preds[i]) {
+			bo, ok := de.ifi.Cond.(*ssa.BinOp)
+			if !ok || !((bo.X == errv && isNilConst(bo.Y)) || (bo.Y == errv && isNilConst(bo.X))) {
+				continue
+			}
+			if (bo.Op == token.EQL && de.succ == 0) || (bo.Op == token.NEQ && de.succ == 1) {
+				under = true
+			}
+		}
+		if !under {
+			return false
+		}
+	}
+	return has
 }
 
 // onFailingPath: blk is dominated by the non-nil edge of an error test.
@@ -616,4 +675,25 @@ func sameBase(a, b ssa.Value) bool {
 		return sameBase(fa.X, fb.X)
 	}
 	return false
+}
+
+// reachablePruned: blocks reachable from b without taking the edges (from, i-th successor) for
+// which pruned reports true.
+func reachablePruned(b *ssa.BasicBlock, pruned func(from *ssa.BasicBlock, i int) bool) map[*ssa.BasicBlock]bool {
+	seen := map[*ssa.BasicBlock]bool{}
+	var walk func(*ssa.BasicBlock)
+	walk = func(x *ssa.BasicBlock) {
+		if seen[x] {
+			return
+		}
+		seen[x] = true
+		for i, s := range x.Succs {
+			if pruned(x, i) {
+				continue
+			}
+			walk(s)
+		}
+	}
+	walk(b)
+	return seen
 }
